@@ -27,8 +27,63 @@ def finding_key(req, obs, detail):
     return "input " + "\t".join(f[1:4])
 
 
+def _spans(lines):
+    """statement spans of generated source (one statement per line, braces on their own lines): (first, last) line
+    indices of single-line statements and of `header { ... }` (+ `else { ... }`) groups"""
+    def block_end(j):
+        depth = 0
+        while j < len(lines):
+            depth += lines[j].count("{") - lines[j].count("}")
+            if depth <= 0:
+                return j
+            j += 1
+        return None
+    out = []
+    for i, ln in enumerate(lines):
+        st = ln.strip()
+        if st in ("", "{", "}", "else") or st.startswith("}"):
+            continue
+        if i + 1 < len(lines) and lines[i + 1].strip() == "{":
+            e = block_end(i + 1)
+            if e is None:
+                continue
+            if e + 2 < len(lines) and lines[e + 1].strip() == "else" and lines[e + 2].strip() == "{":
+                e2 = block_end(e + 2)
+                if e2 is not None:
+                    out.append((i, e2))        # whole if/else
+                    out.append((e + 1, e2))    # only the else branch
+                    continue
+            out.append((i, e))
+        else:
+            out.append((i, i))
+    return out
+
+
+def shrink_v(req):
+    """vector stream: one argument vector, then whole definitions, then statement groups (largest first)"""
+    f = _fields(req)
+    vecs = f[3].split(";") if f[3] else []
+    if len(vecs) > 1:
+        for v in vecs:
+            yield "\t".join([f[0], f[1], f[2], v, "-", "-"])
+    chunks = f[1].split("\\n\\n")
+    for i in range(len(chunks)):
+        if not chunks[i].strip() or len(chunks) == 1:
+            continue
+        yield "\t".join([f[0], "\\n\\n".join(chunks[:i] + chunks[i + 1:]), f[2], f[3], "-", "-"])
+    lines = f[1].split("\\n")
+    spans = sorted(_spans(lines), key=lambda s: (s[0] - s[1], s[0]))
+    for (a, b) in spans:
+        if lines[a] and not lines[a].startswith(" ") and not lines[a].startswith("static") and a != b:
+            continue  # a whole function / struct: handled as a chunk
+        yield "\t".join([f[0], "\\n".join(lines[:a] + lines[b + 1:]), f[2], f[3], "-", "-"])
+
+
 def shrink(req):
     """drop one source line at a time (the harness recomputes ctx and ir from the source)"""
+    if req.startswith("C01.vfn\t"):
+        yield from shrink_v(req)
+        return
     f = _fields(req)
     # whole definitions first (never the function under test)
     chunks = f[1].split("\\n\\n")
